@@ -154,7 +154,9 @@ func (b *BFT) Start() {
 				// calculate time since
 				since := time.Since(resetBFT.StartTime)
 				// allow if 'since' is less than 1 block old
-				if int(since.Milliseconds()) < b.Config.BlockTimeMS() {
+				// (and not in the future: the stamp travels unsigned in COMMIT and block messages, and a negative
+				// process time LENGTHENS the wait by the distance to the stamp)
+				if since >= 0 && int(since.Milliseconds()) < b.Config.BlockTimeMS() {
 					b.log.Infof("Using included timestamp to calculate process time: %s", resetBFT.StartTime.Format(time.StampMilli))
 					processTime = since
 				}
